@@ -109,6 +109,10 @@ func runConcAudit(work string, idx int, in concInput) Record {
 			return rec
 		}
 		id, _ := strconv.Atoi(strings.TrimPrefix(e.Principal.User, "user"))
+		if len(e.Principal.Tags) > 0 { // a tagged node (same numbering as the sequential sink)
+			id, _ = strconv.Atoi(strings.TrimPrefix(e.Principal.Tags[0], "tag:t"))
+			id += 1000
+		}
 		entries = append(entries, fmt.Sprintf("{| e_principal := %d; e_action := %s; e_secret := %s; e_version := %d; e_authorized := %s |}",
 			id, coqAction(*e.Action), coqBytes([]byte(e.Secret)), e.SecretVersion, coqBool(*e.Authorized)))
 	}
